@@ -3,3 +3,4 @@ INVARIANT IterationsBounded
 INVARIANT CursorInside
 INVARIANT NoEndIsRejected
 PROPERTY Terminates
+INVARIANT EmitCase
